@@ -4,7 +4,7 @@ From SV Require Import Base.Prelude Model.Keyspace.
 Require Extraction.
 Require Import ExtrOcamlBasic ExtrOcamlString.
 Extraction Language OCaml.
-Extraction "../ocaml/c20/model.ml" verify_name make_verified valid_nameb use_statement parse_use
-  verify_result canon eq_ci use_keyspace_result is_ok is_err
-  accept_trace acc_init acc_step first_reject pending_calls
+Extraction "../ocaml/c20/model.ml" make_verified valid_nameb use_statement
+  verify_result eq_ci use_keyspace_result is_ok is_err
+  accept_trace acc_init first_reject
   prop_violb Z.of_N N.to_nat.
